@@ -5,7 +5,7 @@ cd /verif
 names="$@"; [ -z "$names" ] && names=$(ls seeded | grep -E '^C[0-9]+-')
 for n in $names; do
   d=/verif/seeded/$n; prop=${n%%-*}
-  checks=$(/venv/bin/python -c "import json;m=json.load(open('$d/meta.json'));print(' '.join(m.get('checks',['$prop'])))")
+  checks=$(/venv/bin/python -c "import json;m=json.load(open('$d/meta.json'));print(' '.join(m.get('checks',[m.get('property','$prop')])))")
   out=$(TIER=${TIER:-quick} ./seedtest.sh $d $checks 2>&1)
   tests=$(echo "$out" | grep -E "passed|failed" | head -1)
   dm=$(echo "$out" | grep "demo on mutated" | sed 's/.*exit //'); dc=$(echo "$out" | grep "demo on /repo" | sed 's/.*exit //')
